@@ -187,8 +187,10 @@ def file_to_blocks(include_path, lazy_file, delimiter=None):
 
 
 def attach_path(block, path):
-    for p in block:
-        yield (p, path)
+    # A list, not a generator: the same block can belong to several bags computed
+    # together (one file read with different blocksizes), and a generator would be
+    # exhausted by the first of them and cannot be sent between processes
+    return [(p, path) for p in block]
 
 
 def decode(block, encoding, errors, line_delimiter):
